@@ -900,6 +900,10 @@ class SimulationObject(TreeClass, ABC):
                 return True
             if o_start <= s_end <= o_end:
                 return True
+            # ``other`` lying strictly inside ``self`` on this axis has neither of self's end points
+            # inside its interval, so test the containment the other way round as well.
+            if s_start <= o_start and o_end <= s_end:
+                return True
         return False
 
     def __eq__(
